@@ -67,6 +67,9 @@ class Funcs:
     def hyp(self, x, y):
         return x * x + y * y
 
+    def scale(self, x, unit):
+        return x * {"m": 1, "k": 1000}[unit]
+
     def pair(self, x):
         return (x, x * 2)
 
